@@ -64,6 +64,22 @@ pub struct QOut<T> {
 
 thread_local! {
     static LAST_PANIC: RefCell<String> = const { RefCell::new(String::new()) };
+    /// > 0 while a call into the crate under test is in progress (its panics are data)
+    static IN_GUARD: std::cell::Cell<usize> = const { std::cell::Cell::new(0) };
+}
+
+/// marks the dynamic extent of a call into the crate under test
+pub struct GuardMark;
+impl GuardMark {
+    pub fn new() -> Self {
+        IN_GUARD.with(|g| g.set(g.get() + 1));
+        GuardMark
+    }
+}
+impl Drop for GuardMark {
+    fn drop(&mut self) {
+        IN_GUARD.with(|g| g.set(g.get().saturating_sub(1)));
+    }
 }
 
 pub fn install_quiet_panic_hook() {
@@ -76,6 +92,10 @@ pub fn install_quiet_panic_hook() {
             "<non-string panic>".to_string()
         };
         let loc = info.location().map(|l| format!(" @{}:{}", l.file(), l.line())).unwrap_or_default();
+        if IN_GUARD.with(|g| g.get()) == 0 {
+            // a panic of the harness itself: a tool error, make it visible
+            eprintln!("harness panic: {msg}{loc}");
+        }
         LAST_PANIC.with(|p| *p.borrow_mut() = format!("{msg}{loc}"));
     }));
 }
@@ -87,7 +107,10 @@ pub fn last_panic() -> String {
 /// run `f`, catching panics and draining the hook buffer
 pub fn guarded<T, R>(f: impl FnOnce() -> Result<R, (String, String)>, wrap: impl FnOnce(R) -> Option<ArrayD<T>>) -> QOut<T> {
     verif_hooks::start();
-    let r = catch_unwind(AssertUnwindSafe(f));
+    let r = {
+        let _g = GuardMark::new();
+        { let _g = crate::dynif::GuardMark::new(); catch_unwind(AssertUnwindSafe(f)) }
+    };
     let hooks = verif_hooks::take();
     match r {
         Ok(Ok(v)) => QOut { out: "Ok".into(), panic_msg: String::new(), err_msg: String::new(), res: wrap(v), hooks },
@@ -243,10 +266,10 @@ macro_rules! impl_dyn1 {
                 }
             }
             fn index_point(&self, i: usize) -> Option<(T, ArrayD<T>)> {
-                catch_unwind(AssertUnwindSafe(|| {
+                { let _g = crate::dynif::GuardMark::new(); catch_unwind(AssertUnwindSafe(|| {
                     let (x, row) = Interp1D::index_point(self, i);
                     (x, row.to_owned().into_dyn())
-                }))
+                })) }
                 .ok()
             }
             fn is_in_range(&self, x: T) -> bool {
@@ -254,7 +277,7 @@ macro_rules! impl_dyn1 {
             }
             fn index_left_of(&self, x: T) -> (Option<usize>, Vec<verif_hooks::Event>) {
                 verif_hooks::start();
-                let r = catch_unwind(AssertUnwindSafe(|| self.get_index_left_of(x))).ok();
+                let r = { let _g = crate::dynif::GuardMark::new(); catch_unwind(AssertUnwindSafe(|| self.get_index_left_of(x))) }.ok();
                 (r, verif_hooks::take())
             }
             fn data_tag(&self) -> &'static str {
@@ -406,10 +429,10 @@ macro_rules! impl_dyn2 {
                 }
             }
             fn index_point(&self, i: usize, j: usize) -> Option<(T, T, ArrayD<T>)> {
-                catch_unwind(AssertUnwindSafe(|| {
+                { let _g = crate::dynif::GuardMark::new(); catch_unwind(AssertUnwindSafe(|| {
                     let (x, y, row) = Interp2D::index_point(self, i, j);
                     (x, y, row.to_owned().into_dyn())
-                }))
+                })) }
                 .ok()
             }
             fn is_in_range(&self, x: T, y: T) -> (bool, bool) {
@@ -417,7 +440,7 @@ macro_rules! impl_dyn2 {
             }
             fn index_left_of(&self, x: T, y: T) -> (Option<(usize, usize)>, Vec<verif_hooks::Event>) {
                 verif_hooks::start();
-                let r = catch_unwind(AssertUnwindSafe(|| self.get_index_left_of(x, y))).ok();
+                let r = { let _g = crate::dynif::GuardMark::new(); catch_unwind(AssertUnwindSafe(|| self.get_index_left_of(x, y))) }.ok();
                 (r, verif_hooks::take())
             }
             fn data_tag(&self) -> &'static str {
